@@ -781,6 +781,12 @@ func (q *Cut) Run(c *Ctx) (string, int) {
 		if neg {
 			s2 = 1 - s
 		}
+		// (a predicate that names the edge by position, e.g. edgeSet, does not look at the condition: it has
+		// answered above, and must not be asked about the mirrored successor; nor must one that sees through the
+		// alias by itself and has just answered for this successor)
+		if s2 != s && pred(b, s2) {
+			return false
+		}
 		condOverride[b] = op
 		r := pred(b, s2)
 		delete(condOverride, b)
